@@ -811,6 +811,16 @@ impl VisitMut for Rw {
                     let recv = (*m.receiver).clone();
                     self.log.push("R21 Option::and_then(closure) -> match".into());
                     Some(parse_quote!(match #recv { Some(#pat) => #body, None => None }))
+                } else if name == "and_then" && m.args.len() == 1
+                    && matches!(&m.args[0], Expr::Closure(c) if c.inputs.len() == 1 && (matches!(&c.inputs[0], Pat::Tuple(t) if t.elems.is_empty())
+                        || matches!(&*c.body, Expr::Call(k) if matches!(&*k.func, Expr::Path(p) if p.path.is_ident("Ok") || p.path.is_ident("Err"))))) {
+                    // R21 (Result form): Result::and_then(|x| E) -> match (its definition)
+                    let c = if let Expr::Closure(c) = &m.args[0] { c.clone() } else { unreachable!() };
+                    let pat = c.inputs[0].clone();
+                    let body = (*c.body).clone();
+                    let recv = (*m.receiver).clone();
+                    self.log.push("R21 Result::and_then(closure) -> match".into());
+                    Some(parse_quote!(match #recv { Ok(#pat) => #body, Err(__vx_e) => Err(__vx_e) }))
                 } else if name == "as_pin_mut" {
                     m.method = Ident::new("as_mut", m.method.span());
                     self.log.push("R1 as_pin_mut -> as_mut".into());
